@@ -37,3 +37,18 @@ LEVEL_NOTE = ("trusted: specs/den.py, specs/graphpred.py, z3 on the per-pattern 
               "the native graph operators; realisable partition = the returned group ids are equal exactly within blocks (ghost pattern over the returned variables); scope as in coverage.rule")
 TRUSTED = ["specs/den.py", "specs/graphpred.py", "z3 (per-pattern satisfiability)", "operand layout of the native graph operators"]
 ASSUMPTIONS = ["bounded scope (see rule)", "realisable partition = the returned group ids are equal exactly within blocks (ghost pattern over the returned variables)"]
+
+
+# ---- the encoder itself: emission contract on the real emitter (pyvc) + Lean lemma over that contract
+TECHNIQUE = ("emission contract + lemma: pyvc proves on the real _division_connected_variable_groups (group_size None / integer / per-vertex list with holes) and the constraint added by _with_borders that, for EVERY graph (ghost incidence lists of any size), it creates "
+             "exactly the stated auxiliary variables and posts exactly the stated constraint schema (loop invariants over a ghost record "
+             "of every constructed expression and every posted constraint); Lean 4 + Mathlib proves for every finite multigraph that the "
+             "schema is satisfiable in the auxiliary variables iff the property's graph predicate holds (C07.enc_iff_plain, C07.enc_iff_sized, C07.enc_iff_borders in lean/Encoders.lean, "
+             "re-checked by `lean` on every run: no sorry, axioms propext / Classical.choice / Quot.sound only). "
+             + TECHNIQUE)
+LEVEL_TEXT = ("exploration overall: the rank / root encoder is PROVED in two machine-checked halves (pyvc emission contract on the real "
+              "code, Lean lemma over that contract; the translation between the two is by hand and cross-checked by the bounded tier); "
+              "IntArray1D / IntExpr sizes, grid forms, native graph-division operator: plumbing proved by pyvc, otherwise bounded. " + LEVEL_TEXT)
+ASSUMPTIONS = ASSUMPTIONS + ["hand translation of the pyvc emission schema into the Lean definition `Enc` (cross-checked by the bounded tier on all small multigraphs)",
+                             "meaning of the posted expression nodes: per-operator contracts of C01 / C12; loop-free graphs where the lemma asks for it",
+                             "Lean 4 kernel + Mathlib"]
